@@ -134,10 +134,16 @@ class Walker:
                     return at, r
         return None, 0
 
+    # adapters that map None to None and Some to Some: the Option they return has the variant of their receiver
+    SOMENESS_PRESERVING = ("std::option::Option::map", "std::option::Option::as_ref", "std::option::Option::as_mut", "std::option::Option::cloned",
+                           "std::option::Option::copied", "std::option::Option::as_deref", "std::option::Option::inspect")
+
     def atom_of(self, t, kinds):
         for at in self.atoms:
             if at.kind in kinds and at.match(t):
                 return at
+        if "opt" in kinds and t[0] == "call" and t[1] in self.SOMENESS_PRESERVING and t[2]:
+            return self.atom_of(t[2][0], ("opt",))
         return None
 
     def truth(self, t, val, killed, depth=0, known=None):
@@ -291,6 +297,11 @@ class Walker:
                 kv = kx[2]
             elif kx[0] == "var" and known is not None and isinstance(known.get(kx[1]), tuple):
                 kv = known[kx[1]][1]
+            elif kx[0] == "field" and kx[2] == "0" and kx[1][0] == "downcast" and kx[1][1][0] == "var" and known is not None:
+                # payload of a known nested value: Poll::Ready(Err(..)) produced by `?` inside a poll function
+                kn = known.get(kx[1][1][1])
+                if isinstance(kn, tuple) and len(kn) >= 3 and kn[1] == kx[1][2]:
+                    kv = kn[2]
             if kv is not None:
                 if x is not kx:
                     kv = {"Ok": "Continue", "Some": "Continue", "Err": "Break", "None": "Break"}.get(kv, kv)
@@ -436,7 +447,7 @@ class Walker:
                 if v is None and dl in self.tested_vars() and "decl" in t["f"] and len(self.T.defs.get(dl, ())) >= 2:
                     q = self.fn.callee(t)[0].qname
                     if q == "std::ops::FromResidual::from_residual":
-                        v = ("V", "Err")
+                        v = ("V", "Ready", "Err") if self.fn.locals[dl].s.startswith("std::task::Poll<") else ("V", "Err")
                     elif q == "std::ops::Try::from_output":
                         v = ("V", "Ok")
                 if v is None:
